@@ -31,7 +31,7 @@ def main():
     shutil.copy(os.path.join(inc, "%s.patch" % letter), os.path.join(dst, "patch.diff"))
     shutil.copy(os.path.join(inc, "demo_%s.py" % letter), os.path.join(dst, "demo.py"))
     for fn in os.listdir(inc):  # helper modules shared by the demos
-        if fn.startswith("_") and fn.endswith(".py"):
+        if (fn.startswith("_") or fn == "demo_common.py") and fn.endswith(".py"):
             shutil.copy(os.path.join(inc, fn), os.path.join(dst, fn))
     if os.path.exists(os.path.join(inc, "notes.md")):
         shutil.copy(os.path.join(inc, "notes.md"), os.path.join(dst, "notes.md"))
